@@ -76,7 +76,7 @@ type scenario struct {
 	Graceful   bool     `json:"graceful_stop,omitempty"`
 }
 
-var focusKinds = []string{"HEADERS-LEGAL", "HEADERS-ILLEGAL", "HEADERS-UNKNOWN", "DATA", "RST_STREAM", "SETTINGS", "PING", "WINDOW_UPDATE", "PROBE", "STORM", "CONTINUATION", "GOAWAY", "PUSH_PROMISE", "PRIORITY", "UNKNOWN", "OVERSIZE", "HEADERS-NOEND"}
+var focusKinds = []string{"WINDOW-FILL", "HEADERS-LEGAL", "HEADERS-ILLEGAL", "HEADERS-UNKNOWN", "DATA", "RST_STREAM", "SETTINGS", "PING", "WINDOW_UPDATE", "PROBE", "STORM", "CONTINUATION", "GOAWAY", "PUSH_PROMISE", "PRIORITY", "UNKNOWN", "OVERSIZE", "HEADERS-NOEND"}
 
 func gen(rng *rand.Rand, fam string, i int) scenario {
 	sc := scenario{Fam: fam, Seed: rng.Int63(), MaxStreams: vlib.Pick(rng, 1, 2, 3, 10), AckSet: rng.Intn(5) != 0, AckPing: rng.Intn(5) != 0,
@@ -97,6 +97,15 @@ func gen(rng *rand.Rand, fam string, i int) scenario {
 	if fam == "limit" {
 		sc.Focus = vlib.Pick(rng, "PROBE", "STORM")
 		sc.Handshakes[0] = "ok"
+	}
+	if fam == "window" {
+		// the client withholds flow-control window: responses stay queued, the
+		// streams stay open on the wire after their handlers have returned
+		sc.Focus = "WINDOW-FILL"
+		sc.MaxHdrList = 0
+		for k := range sc.Handshakes {
+			sc.Handshakes[k] = "iws-zero"
+		}
 	}
 	return sc
 }
@@ -351,6 +360,7 @@ type cconn struct {
 	idCount   map[uint32]int
 	refusedID map[uint32]bool
 	hsOK      bool
+	overLimit bool
 }
 
 type execState struct {
@@ -610,6 +620,36 @@ func (x *execState) quiesce() {
 	synctest.Wait()
 	x.feed()
 	x.count("quiescent_checks", 1)
+	// Streams that were accepted (their request reached a handler) and are still
+	// open on the wire - no END_STREAM / RST_STREAM from the server read, none
+	// sent by the script - are "active streams on the connection", whether or
+	// not the handler is still running.
+	for _, c := range x.all {
+		if !c.alive || c.tainted || !c.hsOK || c.overLimit {
+			continue
+		}
+		if n := x.openAccepted(c); n > x.sc.MaxStreams {
+			c.overLimit = true // report once per connection
+			x.v("open-streams-exceed-max-concurrent-streams", "connection %d has %d streams that were accepted (handler invoked) and are still open on the wire (no END_STREAM / RST_STREAM in either direction), MaxConcurrentStreams is %d; open ids: %v", c.idx, n, x.sc.MaxStreams, x.openIDs(c))
+		} else if n == x.sc.MaxStreams {
+			x.count("quiescent_points_with_open_streams_at_limit", 1)
+		}
+	}
+}
+
+// openAccepted counts the accepted streams of c that are open on the wire.
+func (x *execState) openAccepted(c *cconn) int { return len(x.openIDs(c)) }
+
+func (x *execState) openIDs(c *cconn) []uint32 {
+	x.mu.Lock()
+	defer x.mu.Unlock()
+	var ids []uint32
+	for _, id := range c.order {
+		if s := c.streams[id]; !s.closed && s.blk != nil && s.blk.runs > 0 {
+			ids = append(ids, id)
+		}
+	}
+	return ids
 }
 
 func (x *execState) connect() {
@@ -1025,8 +1065,10 @@ func (x *execState) liveHandlers(c *cconn) (live, running int) {
 	return live, running + x.untagged
 }
 
-// probe: fill the connection up to MaxConcurrentStreams live handlers, then a
-// further legal stream must be refused.
+// probe: fill the connection up to MaxConcurrentStreams accepted streams that
+// are open on the wire (their handlers running on live streams or - when the
+// client withholds flow-control window - already returned with the response
+// still queued), then a further legal stream must be refused.
 func (x *execState) probe(c *cconn) {
 	x.quiesce()
 	if !c.alive || c.tainted || c.goaway || !c.hsOK {
@@ -1039,17 +1081,26 @@ func (x *execState) probe(c *cconn) {
 		x.count("probe_skipped_lingering_handlers", 1)
 		return
 	}
-	for k := live; k < n; k++ {
+	filler := "gate"
+	if x.sc.Fam == "window" {
+		filler = fmt.Sprintf("send:1:%d", 100+x.rng.Intn(3000))
+	}
+	for k := x.openAccepted(c); k < n; k++ {
 		tag := x.newTag("t")
-		x.sendBlock(c, x.freshID(c), x.baseFields(tag, "gate"), "gate", "probe-filler legal-basic", false, 0, false, tag)
+		x.sendBlock(c, x.freshID(c), x.baseFields(tag, filler), filler, "probe-filler legal-basic", false, 0, false, tag)
 	}
 	x.quiesce()
 	live, running = x.liveHandlers(c)
-	if !c.alive || c.goaway || live != n || running != n {
+	open := x.openAccepted(c)
+	if !c.alive || c.goaway || open != n || running != live {
 		x.count("probe_skipped_not_full", 1)
-		x.tr("probe skipped: alive=%v goaway=%v live=%d running=%d limit=%d", c.alive, c.goaway, live, running, n)
+		x.tr("probe skipped: alive=%v goaway=%v open=%d live=%d running=%d limit=%d", c.alive, c.goaway, open, live, running, n)
 		return
 	}
+	if live < n {
+		x.count("probes_with_returned_handlers", 1)
+	}
+	live = open
 	tag := x.newTag("t")
 	id := x.freshID(c)
 	mark := c.peer.Len()
@@ -1075,7 +1126,7 @@ func (x *execState) probe(c *cconn) {
 	runs := b.runs
 	x.mu.Unlock()
 	if !refused {
-		x.v("stream-not-refused-at-limit", "connection %d has %d handlers running on live streams (MaxConcurrentStreams=%d); a further legal stream %d was not answered with RST_STREAM(REFUSED_STREAM) at the next quiescent point; frames for it: %v; handler runs: %d", c.idx, live, n, id, got, runs)
+		x.v("stream-not-refused-at-limit", "connection %d has %d accepted streams open on the wire (MaxConcurrentStreams=%d); a further legal stream %d was not answered with RST_STREAM(REFUSED_STREAM) at the next quiescent point; frames for it: %v; handler runs: %d", c.idx, live, n, id, got, runs)
 	} else {
 		x.count("probes_refused", 1)
 		x.mu.Lock()
@@ -1085,6 +1136,41 @@ func (x *execState) probe(c *cconn) {
 	if runs > 0 {
 		x.v("handler-ran-beyond-limit", "connection %d: the stream opened beyond MaxConcurrentStreams=%d reached a handler", c.idx, n)
 	}
+}
+
+// windowFill: with the client's flow-control window (nearly) closed, open
+// streams whose handlers send a response that fits the write quota and return;
+// the streams stay open on the wire.  More than MaxConcurrentStreams of them are
+// requested; then the refusal probe is taken.
+func (x *execState) windowFill(c *cconn) {
+	x.quiesce()
+	if !c.alive || c.tainted || c.goaway || !c.hsOK {
+		x.count("windowfill_skipped_connection_state", 1)
+		return
+	}
+	m := 1 + x.rng.Intn(x.sc.MaxStreams+3)
+	wait := x.rng.Intn(2) == 0
+	for j := 0; j < m; j++ {
+		tag := x.newTag("t")
+		beh := fmt.Sprintf("send:1:%d", 100+x.rng.Intn(5000))
+		x.sendBlock(c, x.freshID(c), x.baseFields(tag, beh), beh, "window-fill legal-basic", x.rng.Intn(2) == 0, 0, false, tag)
+		if wait {
+			x.quiesce()
+		}
+	}
+	x.count("windowfill_streams", int64(m))
+	x.sig(c, "WINDOW-FILL", "idle", fmt.Sprintf("limit=%d/requested=%s", x.sc.MaxStreams, map[bool]string{true: "beyond-limit", false: "within-limit"}[m > x.sc.MaxStreams]))
+	x.quiesce()
+	if x.rng.Intn(3) == 0 {
+		// let some responses through: those streams end
+		for _, id := range x.openIDs(c) {
+			if x.rng.Intn(2) == 0 {
+				c.peer.WriteWindowUpdate(id, 1<<20)
+			}
+		}
+		x.quiesce()
+	}
+	x.probe(c)
 }
 
 // storm: open-and-reset streams as fast as possible while their handlers linger.
@@ -1213,7 +1299,7 @@ func (x *execState) hostileOp() {
 		kind = x.sc.Focus
 	default:
 		kind = vlib.Pick(rng, "HEADERS-LEGAL", "HEADERS-LEGAL", "HEADERS-LEGAL", "HEADERS-LEGAL", "HEADERS-ILLEGAL", "HEADERS-ILLEGAL", "HEADERS-ILLEGAL", "HEADERS-ILLEGAL", "HEADERS-ILLEGAL", "HEADERS-ILLEGAL", "HEADERS-UNKNOWN", "HEADERS-UNKNOWN",
-			"DATA", "DATA", "DATA", "RST_STREAM", "RST_STREAM", "SETTINGS", "PING", "WINDOW_UPDATE", "PROBE", "STORM", "RELEASE", "RELEASE", "RELEASE-ALL",
+			"DATA", "DATA", "DATA", "RST_STREAM", "RST_STREAM", "SETTINGS", "PING", "WINDOW_UPDATE", "PROBE", "STORM", "WINDOW-FILL", "RELEASE", "RELEASE", "RELEASE-ALL",
 			"HEADERS-NOEND", "CONTINUATION", "GOAWAY", "PUSH_PROMISE", "PRIORITY", "UNKNOWN", "OVERSIZE", "BYTES", "CONN", "SLEEP")
 	}
 	switch kind {
@@ -1299,6 +1385,8 @@ func (x *execState) hostileOp() {
 		}
 		b := x.sendBlock(c, x.freshID(c), fs, beh, cls, rng.Intn(4) == 0, 0, false, tag)
 		x.sig(c, "HEADERS", "idle", cls+"/"+b.class)
+	case "WINDOW-FILL":
+		x.windowFill(c)
 	case "PROBE":
 		x.probe(c)
 	case "STORM":
@@ -1726,6 +1814,7 @@ func TestVerifC12(t *testing.T) {
 	}{
 		{"grammar", r.N(520, 5200) / light()},
 		{"limit", r.N(120, 1200) / light()},
+		{"window", r.N(80, 800) / light()},
 		{"bytes", r.N(150, 1500) / light()},
 		{"handshake", r.N(50, 500) / light()},
 	}
@@ -1743,13 +1832,16 @@ func TestVerifC12(t *testing.T) {
 		if r.Counter("probes_refused") == 0 {
 			r.Inconclusive("no refusal probe at MaxConcurrentStreams completed")
 		}
+		if r.Counter("probes_with_returned_handlers") == 0 {
+			r.Inconclusive("no refusal probe with returned handlers and withheld flow-control window completed")
+		}
 		if r.Counter("handler_for_legal_block") == 0 {
 			r.Inconclusive("no legal request reached a handler: the illegal-request oracle would be vacuous")
 		}
 	}
 	r.Finish(vlib.Spec{
 		Level: "fault_enumeration",
-		Rule: "a real grpc.Server with MaxConcurrentStreams in {1,2,3,10} and a catch-all handler (gate / stubborn / echo / send / status behaviours) against a scripted HTTP/2 client over up to 4 successive connections (normal or hostile prefaces); 10-59 operations per case drawn from a frame grammar: request HEADERS that are legal (8 variants), clearly illegal by the statement (even / zero / reused / decreasing stream id, :method != POST or missing, invalid or missing content-type, 14 malformed grpc-timeout values, duplicate :authority, duplicate host, undecodable -bin metadata, connection header) or unjudged (22 HTTP/2-level malformations and odd fields), DATA/RST_STREAM/SETTINGS/PING/WINDOW_UPDATE/GOAWAY/PUSH_PROMISE/PRIORITY/CONTINUATION/unknown/oversize frames on open|half-closed|closed|idle|even|zero|huge ids, header blocks without END_HEADERS, floods, open+RST storms of 5-44 streams with lingering handlers, refusal probes at exactly MaxConcurrentStreams live handlers, handler releases, virtual sleeps, close/reset; family 'bytes' adds bit-flipped/truncated/spliced/garbage bytes of valid frames; " +
+		Rule: "a real grpc.Server with MaxConcurrentStreams in {1,2,3,10} and a catch-all handler (gate / stubborn / echo / send / status behaviours) against a scripted HTTP/2 client over up to 4 successive connections (normal or hostile prefaces); 10-59 operations per case drawn from a frame grammar: request HEADERS that are legal (8 variants), clearly illegal by the statement (even / zero / reused / decreasing stream id, :method != POST or missing, invalid or missing content-type, 14 malformed grpc-timeout values, duplicate :authority, duplicate host, undecodable -bin metadata, connection header) or unjudged (22 HTTP/2-level malformations and odd fields), DATA/RST_STREAM/SETTINGS/PING/WINDOW_UPDATE/GOAWAY/PUSH_PROMISE/PRIORITY/CONTINUATION/unknown/oversize frames on open|half-closed|closed|idle|even|zero|huge ids, header blocks without END_HEADERS, floods, open+RST storms of 5-44 streams with lingering handlers, refusal probes at exactly MaxConcurrentStreams live handlers, handler releases, virtual sleeps, close/reset; family 'bytes' adds bit-flipped/truncated/spliced/garbage bytes of valid frames; family 'window' keeps the client's flow-control window (nearly) closed, requests up to MaxConcurrentStreams+3 streams whose handlers send a response and return, and takes the refusal probe with returned handlers; at every quiescent point accepted streams still open on the wire <= MaxConcurrentStreams; " +
 			"non-trivial = a (frame type, stream state, field class[/validator class]) triple sent to a live connection; distinct = number of different triples",
 		Assumptions: []string{
 			"every case runs in a child process; a dead child (panic, fatal error, synctest 'blocked goroutines remain') is attributed to the case whose start was logged last",
